@@ -11,6 +11,7 @@ CONSTANTS
  Withs = {FALSE}
  Chunks = {5}
  LyingSizes = FALSE
+ LieMax = 1
  InlineData = FALSE
  Conc = 1
  Probes = FALSE
@@ -19,6 +20,7 @@ CONSTANTS
  TarUnverified = FALSE
  MTs = {TRUE}
  DigestHdrs = {"served"}
+ Trailers = {FALSE}
  Sts = {"std"}
  DropKinds = {"ueof"}
 INIT Init
